@@ -154,9 +154,38 @@ def c05_append_str(e):
     return same(t, want)
 
 
-@_ob("append-text", "append(Text) / append_text(Text) / + of a second solver-chosen pre-state, with and without a base style")
+class _Hang(BaseException):
+    pass
+
+
+@_ob("append-text", "append(Text) / append_text(Text) / + of a second solver-chosen pre-state, with and without a base style, "
+                    "and of the text itself (t.append(t), t.append_text(t), t + t)")
 def c05_append_text(e):
     t, ref, n = mk_pre(e)
+    how = int(e.mk("how", 0, 5))
+    if how >= 3:
+        # a text appended to itself (must terminate: one second is ~10^5 times what the operation needs)
+        import signal
+
+        def _alarm(*_a):
+            raise _Hang()
+        prev = signal.signal(signal.SIGALRM, _alarm)
+        signal.setitimer(signal.ITIMER_REAL, 1.0)
+        try:
+            if how == 3:
+                t.append(t)
+                got = t
+            elif how == 4:
+                t.append_text(t)
+                got = t
+            else:
+                got = t + t
+        except _Hang:
+            return False
+        finally:
+            signal.setitimer(signal.ITIMER_REAL, 0)
+            signal.signal(signal.SIGALRM, prev)
+        return same(got, ref + ref)
     s2 = ["", "x中", "y\tz", "w\n"][int(e.mk("string2", 0, 3))]
     a = int(e.mk("o_start", 0, 1))
     b = int(e.mk("o_end", 0, len(s2)))
@@ -164,7 +193,6 @@ def c05_append_text(e):
     spans = [Span(a, b, "u")] if b > a else []
     other = Text(s2, style="bs" if base else "", spans=list(spans))
     oref = Ref.of(s2, ([(0, 99, "bs")] if base else []) + [(a, b, "u")] * (1 if b > a else 0))
-    how = int(e.mk("how", 0, 2))
     if how == 0:
         t.append(other)
         got = t
@@ -273,17 +301,21 @@ def c05_independence(e):
     return all(same(p, w) for p, w in zip(res, want))
 
 
-@_ob("getitem", "t[i] for every index in [-len, len-1] and t[a:b] for a, b in [-4, 4]")
+@_ob("getitem", "t[i] for every index in [-len, len-1] and t[a:b] for a, b in [-4, 4], on a text with or without a base style "
+                "(the characters of the result keep it: effective style = base style + spans)")
 def c05_getitem(e):
     t, ref, n = mk_pre(e)
+    base = "bs" if e.mkbool("base_style") else ""
+    t.style = base
     L = len(ref.plain)
     ok = True
     for i in range(-L, L):          # every valid index, natively
-        ok = ok and same(t[i], ref.slice(i, i + 1 if i != -1 else None))
+        one = t[i]
+        ok = ok and same(one, ref.slice(i, i + 1 if i != -1 else None)) and one.style == base
     a = int(e.mk("a", -4, 4))
     b = int(e.mk("b", -4, 4))
     got = t[a:b]
-    return ok and same(got, ref.slice(a, b)) and same(t, ref)
+    return ok and same(got, ref.slice(a, b)) and got.style == base and same(t, ref) and t.style == base
 
 
 @_ob("pad", "pad / pad_left / pad_right with counts -2..3 (a negative count pads nothing, as ch*count on a str) and pad characters "
